@@ -17,5 +17,7 @@ elif p == "C02":
     print("free red")  # the first is executed, the others are built alongside (sub-harnesses)
 elif p == "C09":
     print("free citer")
+elif p == "C11":
+    print("free cctl")  # + cache controller / cached datastore on a harness clock: histories and interleavings
 else:
     print("free")
